@@ -467,7 +467,7 @@ def main():
         if casepath is None:
             # crash: regenerate the case with the in-flight recorder
             casepath = os.path.join(ctx.tmpdir, "inflight-%s-%d.json" % (variant, idx))
-            cmd = [exe, prop, "--seed", str(args.seed), "--from", str(idx), "--count", "1", "--inflight", casepath] + (["--thorough"] if thorough else [])
+            cmd = [exe, prop, "--seed", str(args.seed), "--from", str(idx), "--count", "1", "--inflight", casepath, "--outdir", ctx.tmpdir] + (["--thorough"] if thorough else [])
             try:
                 subprocess.run(cmd, stdout=subprocess.PIPE, stderr=subprocess.PIPE, cwd=VERIF, timeout=180)
             except subprocess.TimeoutExpired:
